@@ -19,7 +19,7 @@ DECIDING = ["C10.frames"]
 RULE = ("molecule pairs written by the harness as .xyz/.gro/.pdb (1-12 atoms of H/C/N/O: single atoms, collinear, planar, non-planar, off-centre "
         "files) plus input/H2O.gro, read through OneMoleculeReader; grid arrays: real FullGrid arrays and non-grid arrays of random unit "
         "quaternions (both signs, pools of repeated orientations in arbitrary order, near-identity rotations, re-sorted / thinned grid rows, whole-Angstrom lattices with integer-component quaternions handed over as int64/int32 arrays or nested lists of ints) "
-        "with positions up to 50 A, 1-60 rows; routes: Pseudotrajectory directly, the generator with frames retained by the caller, PtWriter from a saved .npy, PtWriter after write_structure "
+        "with positions up to 50 A, 1-60 rows; one array of 3000-4000 rows 20-60 A from the origin per run (thorough 4); structure files of every second set-up overwrite those of an earlier one; routes: Pseudotrajectory directly (also: first request fails on an unfilled row, the caller completes it in place and asks again), the generator with frames retained by the caller, PtWriter from a saved .npy, PtWriter after write_structure "
         "with the written xyz file read back. "
         "Every frame of every pseudotrajectory is judged. Non-trivial = second molecule with >=2 atoms and >=2 rows; distinct by (molecules, array digest)")
 ASSUMPTIONS = ["coordinates pass through MDAnalysis float32 storage: tolerance 5e-5 A + 4e-7*|x|", "centres of mass use MDAnalysis' own guessed masses",
@@ -36,6 +36,11 @@ def quat_to_matrix(q):
                      [2 * (x * z - y * w), 2 * (y * z + x * w), 1 - 2 * (x * x + y * y)]])
 
 
+# coordinates live in MDAnalysis float32 arrays: every operation on a coordinate of magnitude m costs ~6e-8 m; the base term covers
+# the few operations at small magnitudes (measured on the unchanged tree: worst error 2e-6 A at 60 A, 4e-7 A near the origin)
+BASE_TOL = float(os.environ.get("VERIF_C10_BASE_TOL", "5e-6"))
+
+
 def snapshot_references(self, molecule1, molecule2, full_grid):
     try:
         self._verif_ref = {
@@ -50,8 +55,9 @@ def snapshot_references(self, molecule1, molecule2, full_grid):
     return True
 
 
-def judge_universe(u, ref, where):
+def judge_universe(u, ref, where, base=None):
     mon = "C10.frames"
+    BASE_TOL = globals()["BASE_TOL"] if base is None else base
     x1, x2, m2, grid = ref["x1"], ref["x2"], ref["m2"], ref["grid"]
     n1, n2 = len(x1), len(x2)
     problems = []
@@ -68,8 +74,8 @@ def judge_universe(u, ref, where):
             pos = np.array(u.atoms.positions, dtype=float)
             R = quat_to_matrix(grid[k, 3:])
             want2 = (x2 - com) @ R.T + com + grid[k, :3]
-            tol1 = 5e-5 + 4e-7 * np.abs(x1).max() if n1 else 0
-            tol2 = 5e-5 + 4e-7 * (np.abs(want2).max() + np.abs(x2).max())
+            tol1 = BASE_TOL + 4e-7 * np.abs(x1).max() if n1 else 0
+            tol2 = BASE_TOL + 4e-7 * (np.abs(want2).max() + np.abs(x2).max())
             if n1 and np.abs(pos[:n1] - x1).max() > tol1:
                 problems.append({"frame": k, "first molecule moved by": float(np.abs(pos[:n1] - x1).max())})
             err = np.abs(pos[n1:] - want2).max()
@@ -102,7 +108,7 @@ def judge_retained_frames(frames, ref, where):
     for k, (_, u) in enumerate(frames[:len(grid)]):
         pos = np.array(u.atoms.positions, dtype=float)
         want2 = (x2 - com) @ quat_to_matrix(grid[k, 3:]).T + com + grid[k, :3]
-        tol = 5e-5 + 4e-7 * (np.abs(want2).max() + np.abs(x2).max())
+        tol = BASE_TOL + 4e-7 * (np.abs(want2).max() + np.abs(x2).max())
         if pos.shape != (n1 + len(x2), 3) or np.abs(pos[n1:] - want2).max() > tol or (n1 and np.abs(pos[:n1] - x1).max() > tol):
             problems.append({"retained frame": k, "second molecule off by": float(np.abs(pos[n1:] - want2).max()) if pos.shape == (n1 + len(x2), 3) else None})
             if len(problems) > 3:
@@ -155,7 +161,32 @@ def written_pt_is_rigid_placement(self, path_output_pt, path_output_structure):
         ref2 = dict(ref)
         ref2["names"] = [str(n) for n in u.atoms.names]   # file formats rename atoms: order/positions are judged, names are judged in memory
         ref2["types"] = [str(t) for t in u.atoms.types]
-        judge_universe(u, ref2, "PtWriter.write_full_pt (file read back)")
+        judge_universe(u, ref2, "PtWriter.write_full_pt (file read back)", base=5e-5)   # the xyz writer keeps 5 decimals
+    except Exception as e:
+        REC.crashed("C10.oracle_error", e)
+    return True
+
+
+WRITTEN = {}     # abspath -> (coordinates the harness wrote there last, precision of the file format in A)
+
+
+def reader_returns_what_the_file_holds(self, path_molecule, center_com, result):
+    """the reference geometry IS what the structure file holds when the reader is built (the harness knows what it wrote there last):
+    shape of the molecule compared through the matrix of interatomic distances, which the optional centring does not change"""
+    mon = "C10.reader"
+    try:
+        rec = WRITTEN.get(os.path.abspath(str(path_molecule)))
+        if rec is None:
+            REC.skip(mon, "file not written by the harness")
+            return True
+        X, prec = rec
+        pos = np.array(self.get_molecule().atoms.positions, dtype=float)
+        ok = pos.shape == X.shape
+        if ok:
+            d = np.linalg.norm(pos[:, None] - pos[None], axis=2)
+            dw = np.linalg.norm(X[:, None] - X[None], axis=2)
+            ok = np.abs(d - dw).max() <= 4 * prec + 1e-5
+        REC.check(mon, ok, lambda: {"path": os.path.basename(str(path_molecule)), "read": pos[:6], "written_last": X[:6]})
     except Exception as e:
         REC.crashed("C10.oracle_error", e)
     return True
@@ -164,6 +195,7 @@ def written_pt_is_rigid_placement(self, path_output_pt, path_output_structure):
 def install():
     from molgri.molecules import pts
     import molgri.io as io
+    attach.ensure(io.OneMoleculeReader, "__init__", reader_returns_what_the_file_holds)
     attach.ensure(pts.Pseudotrajectory, "__init__", snapshot_references)
     attach.ensure(pts.Pseudotrajectory, "get_pt_as_universe", pt_frames_are_rigid_placements)
     attach.ensure(io.PtWriter, "__init__", ptwriter_snapshot)
@@ -198,6 +230,7 @@ def make_geometry(rng, nprng, kind, n):
 
 def write_molecule(path, X, els):
     ext = path.rsplit(".", 1)[1]
+    WRITTEN[os.path.abspath(path)] = (np.array(X, dtype=float), 0.005 if ext == "gro" else 0.0005)
     if ext == "xyz":
         with open(path, "w") as f:
             f.write(f"{len(X)}\nharness molecule\n")
@@ -218,6 +251,14 @@ def write_molecule(path, X, els):
 
 def make_array(rng, nprng, tier):
     kind = rng.choice(["fullgrid", "fullgrid_resorted", "random", "random", "pool", "near_identity", "single_row", "integer_lattice"])
+    if tier.endswith("+long"):
+        # thousands of rows 20-60 A from the origin: rounding left behind by one frame must not reach the next ones
+        n = rng.randint(3000, 4000)
+        q = nprng.normal(size=(n, 4))
+        q /= np.linalg.norm(q, axis=1, keepdims=True)
+        p = nprng.normal(size=(n, 3))
+        p *= (nprng.uniform(20, 60, size=n) / np.linalg.norm(p, axis=1))[:, None]
+        return np.hstack([p, q]), f"long_far n={n}"
     if kind == "integer_lattice":
         # whole-Angstrom positions with the eight quaternions that have integer components (identity and half turns, both signs):
         # legal rows that can be handed over as an integer array or as nested lists of Python ints
@@ -264,7 +305,15 @@ def drive(pts, io, d, rng, nprng, tier, idx):
     n1 = 1 if k1 == "single" else rng.randint(2, 12)
     n2 = 1 if k2 == "single" else rng.randint(2, 12)
     e1, e2 = rng.choice(["xyz", "gro", "pdb"]), rng.choice(["xyz", "gro", "pdb"])
-    p1, p2 = os.path.join(d, f"m1_{idx}.{e1}"), os.path.join(d, f"m2_{idx}.{e2}")
+    if idx % 2:
+        # every second set-up overwrites the files of an earlier one (same path, same format, often the same atom count and byte size):
+        # a structure file is re-read whenever a reader is built for it
+        e1, e2 = rng.choice(["gro", "pdb"]), rng.choice(["gro", "pdb"])      # fixed-width formats: the rewritten file has the same size
+        p1, p2 = os.path.join(d, f"m1.{e1}"), os.path.join(d, f"m2.{e2}")
+        n1 = n1 if k1 == "single" else 4
+        n2 = n2 if k2 == "single" else 5
+    else:
+        p1, p2 = os.path.join(d, f"m1_{idx}.{e1}"), os.path.join(d, f"m2_{idx}.{e2}")
     X1, el1 = make_geometry(rng, nprng, k1, n1)
     X2, el2 = make_geometry(rng, nprng, k2, n2)
     write_molecule(p1, X1, el1)
@@ -274,6 +323,7 @@ def drive(pts, io, d, rng, nprng, tier, idx):
     else:
         write_molecule(p2, X2, el2)
     arr, desc = make_array(rng, nprng, tier)
+    tier = tier.replace("+long", "")
     # the same rows in other legal forms: Fortran-ordered, a non-contiguous view, float32 (positions/quaternions good to ~1e-7)
     form = rng.choice(["c", "c", "fortran", "view", "float32"])
     if desc.startswith("integer_lattice"):
@@ -286,11 +336,32 @@ def drive(pts, io, d, rng, nprng, tier, idx):
     elif form == "float32":
         arr = arr.astype(np.float32)
     desc += f" form={form}"
-    route = rng.choice(["direct", "generator", "ptwriter", "ptwriter_then_structure"])
+    route = rng.choice(["direct", "generator", "ptwriter", "ptwriter_then_structure", "direct_retry_after_failure"])
+    if route == "direct_retry_after_failure" and not (isinstance(arr, np.ndarray) and arr.dtype == np.float64 and len(arr) >= 3 and arr.flags.writeable):
+        route = "direct"
     REC.begin_case({"mol1": [k1, n1, e1], "mol2": [k2, n2, e2], "array": desc, "route": route, "rows_head": arr[:3]},
                    cls=[f"route={route}", f"mol2={k2}", f"array={desc.split()[0]}"], sample=(idx % 9 == 0))
     try:
-        if route == "direct":
+        if route == "direct_retry_after_failure":
+            # history: the caller's grid still has an unfilled row (zero quaternion) when the pseudotrajectory is first asked for; the call
+            # fails, the caller completes the row in place and asks the same object again
+            m1 = io.OneMoleculeReader(p1).get_molecule()
+            m2 = io.OneMoleculeReader(p2).get_molecule()
+            k_bad = len(arr) // 2
+            good_row = arr[k_bad].copy()
+            arr[k_bad, 3:] = 0.0
+            pt = pts.Pseudotrajectory(m1, m2, arr)
+            try:
+                pt.get_pt_as_universe()
+                failed = False
+            except Exception:
+                failed = True
+            REC.classes[f"first request failed={failed}"] += 1
+            arr[k_bad] = good_row
+            pt._verif_ref["grid"] = np.array(arr, dtype=float)     # the harness' own knowledge of the completed grid
+            if failed:
+                pt.get_pt_as_universe()
+        elif route == "direct":
             m1 = io.OneMoleculeReader(p1).get_molecule()
             m2 = io.OneMoleculeReader(p2).get_molecule()
             pts.Pseudotrajectory(m1, m2, arr).get_pt_as_universe()
@@ -329,6 +400,8 @@ def run_shard(spec):
     try:
         for it in range(spec["count"]):
             drive(pts, io, d, rng, nprng, spec["tier"], it)
+        if spec["rseed"] % 1000 < (1 if spec["tier"] == "quick" else 4):
+            drive(pts, io, d, rng, nprng, spec["tier"] + "+long", 10 ** 6)
     finally:
         shutil.rmtree(d, ignore_errors=True)
 
